@@ -52,7 +52,7 @@ def _make_ranges(rng):
     allowed, dparams = DEC_TABLE[dec]
     cname = rng.choice(allowed if allowed else list(CODES))
     three = cname not in CODES_2D
-    sizes = [(2, 2), (3, 3), (2, 3), (4, 4), (3, 2), (4, 2)] if not three else [(2, 2, 2), (2, 3, 2), (3, 2, 2), (2, 2, 3), (2, 2, 4)]
+    sizes = [(2, 2), (3, 3), (2, 3), (4, 4), (3, 2), (4, 2)] if not three else [(2, 2, 2), (2, 3, 2), (3, 2, 2), (2, 2, 3), (2, 2, 4), (2, 3, 3)]
     if cname in ('RhombicToricCode', 'Color3DCode'):
         sizes = [(2, 2, 2), (2, 2, 4), (4, 2, 2), (2, 4, 2)]
     if cname == 'HollowRhombicCode':
@@ -78,7 +78,11 @@ def _make_ranges(rng):
                 del d[rng.choice(['L_y', 'L_z'] if three else ['L_y'])]
             cparams.append(d)
         else:
-            cparams.append(list(s))
+            # list form, sometimes without the last size (left to its default: L_z = L_x)
+            cparams.append(list(s) if not (three and rng.random() < 0.3) else list(s[:2]))
+    if three and cname not in ('RhombicToricCode', 'Color3DCode', 'HollowRhombicCode') and rng.random() < 0.35:
+        # a lattice given by two sizes NEXT TO the lattices an implementation might confuse it with: (2,3) means 2x3x2
+        cparams = [[2, 3], [2, 3, 3], {'L_x': 2, 'L_y': 3, 'L_z': 2}][:rng.randint(2, 3)] + cparams
     # a size left to its default may coincide with another requested lattice: keep one request per distinct lattice
     import panqec.codes as pc
     seen_sizes, uniq = set(), []
